@@ -41,6 +41,7 @@ type AtSpec struct {
 	Text     string
 	C        Clause
 	CallOnly bool // at call "text": only call instructions match; arg(i) denotes their arguments
+	MapOnly  bool // at update "text": only map assignments m[k] = v match; arg(0), arg(1), arg(2) = m, k, v
 }
 
 type Unit struct {
@@ -383,9 +384,13 @@ func (c *Contracts) ParseFile(path, pkgPath string) error {
 			}
 			t := strings.TrimSpace(r.text)
 			callOnly := false
+			mapOnly := false
 			if strings.HasPrefix(t, "call ") {
 				callOnly = true
 				t = strings.TrimSpace(t[5:])
+			} else if strings.HasPrefix(t, "update ") {
+				mapOnly = true
+				t = strings.TrimSpace(t[7:])
 			}
 			if !strings.HasPrefix(t, "\"") {
 				return fmt.Errorf("%s:%d: at \"text\" requires EXPR", path, r.line)
@@ -405,7 +410,7 @@ func (c *Contracts) ParseFile(path, pkgPath string) error {
 			if err != nil {
 				return err
 			}
-			cur.Ats = append(cur.Ats, AtSpec{Text: txt, C: cl, CallOnly: callOnly})
+			cur.Ats = append(cur.Ats, AtSpec{Text: txt, C: cl, CallOnly: callOnly, MapOnly: mapOnly})
 			curLoop = nil
 		case "invariant":
 			if curLoop == nil {
